@@ -43,16 +43,16 @@ def MC(module, consts, invariants=(), properties=(), spec=None, dev=(), expect_v
 
 
 def GEN(module, consts, family, replay_args=(), workers=16, xmx="6g", timeout=1800, label=None,
-        view="View", known_const="Known", min_cases=1):
+        view="View", known_const="Groups", min_cases=1, only_devs=None):
     return dict(kind="GEN", module=module, consts=consts, family=family, replay_args=list(replay_args),
                 workers=workers, xmx=xmx, timeout=timeout, label=label or module, view=view,
-                known_const=known_const, min_cases=min_cases)
+                known_const=known_const, min_cases=min_cases, only_devs=only_devs)
 
 
 def TRACE(module, family, drive_args=(), consts=None, n=1000, xmx="6g", timeout=1800, label=None,
-          known_const="Known", trace_file=None, race=False):
+          known_const="Groups", trace_file=None, race=False, only_devs=None):
     return dict(kind="TRACE", module=module, family=family, drive_args=list(drive_args), consts=consts or {},
-                n=n, xmx=xmx, timeout=timeout, label=label or module, known_const=known_const,
+                n=n, xmx=xmx, timeout=timeout, label=label or module, known_const=known_const, only_devs=only_devs,
                 trace_file=trace_file or ("trace_%s.ndjson" % family), race=race)
 
 
@@ -70,8 +70,24 @@ def load_findings():
         return json.load(f)["findings"]
 
 
-def open_devs(findings, family):
-    return sorted({f["deviation"] for f in findings if f["status"] == "open" and f["family"] == family})
+def finding_devs(f):
+    return [f["deviation"]] + list(f.get("with", []))
+
+
+def open_groups(findings, family, only=None):
+    """One group of deviation names per open finding of the family (optionally
+    restricted to the deviations a stage can observe)."""
+    gs = []
+    for f in findings:
+        if f["status"] == "open" and f["family"] == family:
+            g = [d for d in finding_devs(f) if only is None or d in only]
+            if g and sorted(g) not in gs:
+                gs.append(sorted(g))
+    return gs
+
+
+def fmt_groups(gs):
+    return "{" + ", ".join("{" + ", ".join('"%s"' % d for d in g) + "}" for g in gs) + "}"
 
 
 # --------------------------------------------------------------------------
@@ -124,7 +140,10 @@ class Ctx:
     def tlc_cmd(self, module, cfgname, workers, xmx, extra=()):
         self.nrun += 1
         meta = os.path.join(self.dir, "meta%d" % self.nrun)
-        return ["java", "-XX:+UseParallelGC", "-Xmx" + xmx, "-Xss64m", "-cp", TLA_CP, "tlc2.TLC",
+        # MemStateQueue: TLC's default DiskStateQueue fails to serialise some lazily evaluated
+        # function values of these specs ("StatePoolWriter ... fcnRcd is null")
+        return ["java", "-XX:+UseParallelGC", "-Xmx" + xmx, "-Xss64m",
+                "-Dtlc2.tool.queue.IStateQueue=MemStateQueue", "-cp", TLA_CP, "tlc2.TLC",
                 "-workers", str(workers), "-metadir", meta, "-config", cfgname] + list(extra) + [module + ".tla"]
 
 
@@ -143,6 +162,8 @@ def cfg_text(consts, init="Init", nxt="Next", spec=None, invariants=(), properti
     lines = ["CONSTANTS"]
     for k, v in consts.items():
         if isinstance(v, str) and v.startswith("<-"):
+            lines.append(" %s %s" % (k, v))
+        elif isinstance(v, str) and v.startswith("="):
             lines.append(" %s %s" % (k, v))
         else:
             lines.append(" %s = %s" % (k, fmt_const(v)))
@@ -203,7 +224,7 @@ def run_mc(ctx, st):
     p = parse_tlc(text)
     res = dict(stage=st["label"], kind="MC", states=p["distinct"], transitions=p["generated"],
                wall_s=round(time.time() - t0, 1), dev=st["dev"], invariants=st["invariants"] + st["properties"],
-               cmd=" ".join(cmd[5:]))
+               cmd=" ".join(cmd[6:]))
     if st["expect_violation"]:
         if p["error"] and "is violated" in p["error"]:
             res["refuted"] = p["error"].splitlines()[0]
@@ -250,7 +271,7 @@ def parse_summary(out, label):
 def run_gen(ctx, st):
     consts = dict(st["consts"])
     if st["known_const"]:
-        consts[st["known_const"]] = set(open_devs(ctx.findings, st["family"]))
+        consts[st["known_const"]] = "=" + fmt_groups(open_groups(ctx.findings, st["family"], st.get("only_devs")))
     name = "run_%s_%d.cfg" % (st["module"], ctx.nrun)
     ctx.write_cfg(name, cfg_text(consts, view=st["view"]))
     cmd = ctx.tlc_cmd(st["module"], name, st["workers"], st["xmx"])
@@ -276,7 +297,7 @@ def run_gen(ctx, st):
         raise Infra("%s: replayer exit %d:\n%s" % (st["label"], rp.returncode, out[-1500:] + text[-1500:]))
     summ = parse_summary(out, st["label"])
     res = dict(stage=st["label"], kind="GEN", states=p["distinct"], transitions=p["generated"],
-               wall_s=round(time.time() - t0, 1), cmd=" ".join(cmd[5:]) + " | ucfgconf replay %s %s" %
+               wall_s=round(time.time() - t0, 1), cmd=" ".join(cmd[6:]) + " | ucfgconf replay %s %s" %
                (st["family"], " ".join(st["replay_args"])))
     absorb_summary(ctx, st, summ, res)
     if res["cases"] < st["min_cases"]:
@@ -323,7 +344,7 @@ def run_trace(ctx, st):
         raise Infra("%s: empty trace" % st["label"])
     consts = dict(st["consts"])
     if st["known_const"]:
-        consts[st["known_const"]] = set(open_devs(ctx.findings, st["family"]))
+        consts[st["known_const"]] = "=" + fmt_groups(open_groups(ctx.findings, st["family"], st.get("only_devs")))
     name = "run_%s_%d.cfg" % (st["module"], ctx.nrun)
     ctx.write_cfg(name, cfg_text(consts, spec="Spec", invariants=["Report"], postcondition="Accepted"))
     cmd = ctx.tlc_cmd(st["module"], name, 1, st["xmx"])
@@ -384,24 +405,25 @@ def finish(ctx, spec, t0, infra=None):
     open_by_dev = {}
     for f in mine:
         if f["status"] == "open":
-            open_by_dev.setdefault(f["deviation"], []).append(f)
+            for d in finding_devs(f):
+                open_by_dev.setdefault(d, []).append(f)
     lines = []
     rc = 0
-    unlisted = []
+    # one KNOWN-FINDING line per listed finding whose deviation(s) were observed in this run
+    per_finding = {}
     for d, n in sorted(ctx.known_hits.items()):
-        if d in open_by_dev:
-            for f in open_by_dev[d]:
-                lines.append("KNOWN-FINDING: property=%s %s %s (deviation %s, %d cases this run)" %
-                             (prop, f["id"], f["what"], d, n))
-        else:
-            unlisted.append(d)
-    # a deviation hit that is open for the family but not listed for this property is still a
-    # listed finding of the code base; report it under its own id
-    for d in unlisted:
-        fs = [f for f in ctx.findings if f["deviation"] == d and f["status"] == "open"]
+        if not n:
+            continue
+        fs = open_by_dev.get(d) or [f for f in ctx.findings if d in finding_devs(f) and f["status"] == "open"]
         for f in fs:
-            lines.append("KNOWN-FINDING: property=%s %s %s (listed under %s; deviation %s, %d cases this run)" %
-                         (prop, f["id"], f["what"], f["property"], d, ctx.known_hits[d]))
+            e = per_finding.setdefault(f["id"], dict(f=f, n=0, devs=[]))
+            e["n"] += n
+            e["devs"].append(d)
+    for fid, e in sorted(per_finding.items()):
+        f = e["f"]
+        where = "" if prop in ([f["property"]] + f.get("also_seen_in", [])) else " (listed under %s)" % f["property"]
+        lines.append("KNOWN-FINDING: property=%s %s %s%s [deviation %s; %d cases this run]" %
+                     (prop, fid, f["what"], where, "+".join(e["devs"]), e["n"]))
     replay_paths = []
     if ctx.violations:
         rc = 1
